@@ -250,6 +250,26 @@ def waiter_replies_only():
     return False
 
 
+def registered_first():
+    """common/callbacks.py `CallbackHandler._call`: the first statement is
+    `if callback in self._callbacks: return self._callbacks[callback](...)` — a registered callback wins over the target's
+    `_on_<name>` method; `__contains__` accepts either."""
+    tree = G.parse("common/callbacks.py")
+    fn = G.P.find_function(tree, "CallbackHandler", "_call")
+    body = [st for st in fn.body if not (isinstance(st, ast.Expr) and isinstance(st.value, ast.Constant))]
+    first = body[0] if body else None
+    ok = False
+    if isinstance(first, ast.If) and isinstance(first.test, ast.Compare) and len(first.test.ops) == 1 and isinstance(first.test.ops[0], ast.In) \
+            and G.P.dotted(first.test.comparators[0]) == "self._callbacks" and first.body and isinstance(first.body[0], ast.Return):
+        call = first.body[0].value
+        ok = isinstance(call, ast.Call) and isinstance(call.func, ast.Subscript) and G.P.dotted(call.func.value) == "self._callbacks"
+    # `__contains__`: registered or delegate
+    cfn = G.P.find_function(tree, "CallbackHandler", "__contains__")
+    either = any(isinstance(n, ast.Compare) and isinstance(n.ops[0], ast.In) and G.P.dotted(n.comparators[0]) == "self._callbacks" for n in ast.walk(cfn)) \
+        and any(isinstance(n, ast.Call) and G.P.dotted(n.func) == "getattr" for n in ast.walk(cfn))
+    return ok, either
+
+
 def lean_pairs(ps):
     return "[" + ", ".join(f"({s}, {f})" for s, f in ps) + "]"
 
@@ -312,6 +332,17 @@ def unit_Callbacks():
     out.append("/-- `GemHandler._on_disconnected` calls `on_connection_closed`; `_on_communicating` calls `select()` -/")
     out.append(f"def disconnectedForwards : Bool := {str(fwd).lower()}")
     out.append(f"def communicatingSelects : Bool := {str(sel).lower()}\n")
+    reg_first, either = registered_first()
+    out.append("/-- `CallbackHandler._call` tries the registered callback first, then the target's `_on_<name>`; `__contains__` accepts either -/")
+    out.append(f"def registeredFirst : Bool := {str(reg_first).lower()}")
+    out.append(f"def containsEither : Bool := {str(either).lower()}\n")
+    # `_handle_stream_function`: the only condition in front of the callback is the `not in self._callback_handler` test
+    hfn = G.P.find_function(htree, "SecsHandler", "_handle_stream_function")
+    ifs = [st for st in hfn.body if isinstance(st, ast.If)]
+    only_contains = len(ifs) == 1 and isinstance(ifs[0].test, ast.Compare) and isinstance(ifs[0].test.ops[0], ast.NotIn) \
+        and G.P.dotted(ifs[0].test.comparators[0]) == "self._callback_handler"
+    out.append("/-- `_handle_stream_function` goes to `_handle_unknown_functions` exactly when the name is `not in self._callback_handler` (no other condition) -/")
+    out.append(f"def unknownIffNoCallback : Bool := {str(only_contains).lower()}\n")
     wro = waiter_replies_only()
     out.append("/-- `HsmsProtocol._on_connection_message_received`: only an even function (a reply) is looked up in `_response_queues` -/")
     out.append(f"def waiterRepliesOnly : Bool := {str(wro).lower()}\n")
@@ -320,7 +351,8 @@ def unit_Callbacks():
     G.FACTS["Callbacks"] = {"builtin": {c: builtin[c] for c in HANDLER_CLASSES}, "catalogue": [(s, f) for s, f, _, _ in cat],
                             "replyRequired": req, "streamsWithF0": sorted({s for s, f, _, _ in cat if f == 0}),
                             "unknownReply": list(unk[0]), "abortFunction": ab[0][1], "protocolHooks": proto, "commWiring": wiring,
-                            "dispatch": rows, "linkLossStates": loss, "waiterRepliesOnly": wro}
+                            "dispatch": rows, "linkLossStates": loss, "waiterRepliesOnly": wro, "registeredFirst": reg_first,
+                            "containsEither": either, "unknownIffNoCallback": only_contains}
 
 
 UNITS = {"Callbacks": unit_Callbacks}
